@@ -260,6 +260,12 @@ var LastSettleState string
 // NewReplicaOpts is NewReplicaAt with a hook to adjust the OrbitDB options (cache,
 // keystore, identity injection) and an explicit peer id.
 func (e *Env) NewReplicaOpts(idx int, label, dir string, pid peer.ID, mutate func(o *orbitdb.NewOrbitDBOptions)) (*Replica, error) {
+	return e.NewReplicaCtx(e.Ctx, idx, label, dir, pid, mutate)
+}
+
+// NewReplicaCtx is NewReplicaOpts with the context handed to NewOrbitDB chosen by the caller
+// (an application may end the context it constructed the instance with before it closes it).
+func (e *Env) NewReplicaCtx(ctx context.Context, idx int, label, dir string, pid peer.ID, mutate func(o *orbitdb.NewOrbitDBOptions)) (*Replica, error) {
 	api := e.NewAPI(idx, pid)
 	e.Net.register(idx, pid)
 	opts := &orbitdb.NewOrbitDBOptions{
@@ -271,7 +277,7 @@ func (e *Env) NewReplicaOpts(idx int, label, dir string, pid peer.ID, mutate fun
 	if mutate != nil {
 		mutate(opts)
 	}
-	odb, err := orbitdb.NewOrbitDB(e.Ctx, api, opts)
+	odb, err := orbitdb.NewOrbitDB(ctx, api, opts)
 	if err != nil {
 		return nil, err
 	}
